@@ -42,6 +42,8 @@ ASSUMPTIONS = [
     "error reports are compared by number (stderr lines `log4rs: `) and, for build errors, typed kind+name; texts never",
     "strict path = serde parse of RawConfig + log4rs::config::create_raw_config (YAML, JSON; no public TOML entry point)",
     "dates written by `{d}` and the JSON encoder's `time` field are masked before outputs are compared",
+    "file contents are not compared for (mutant) documents in which a size-triggered rolling appender writes time "
+    "stamps (chrono prints 3/6/9 fractional digits, so roll points vary between runs); structure still is",
     "built components are also compared structurally with their programmatic equivalents through their Debug "
     "renderings (two objects printed by the same binary; the scheduled next_roll_time is masked)",
 ]
@@ -321,6 +323,9 @@ def gen_logical(rng):
                 roll = ("fixed_window", rng.choice(["@D@/arch%d/r.{}.log", "@D@/r%d.{}.old", "@D@/arch%d/r.{}.log.gz"]) % i,
                         rng.choice([0, 0, 1, 2]), rng.choice([0, 1, 2, 3]))
             a["policy"] = (trig, roll)
+            if trig[0] == "size" and trig[1] < 100000 and (enc is None or enc[0] == "json"):
+                # chrono prints 3/6/9 fractional digits: record length, hence the roll points, would vary from run to run
+                a["enc"] = ("pattern", "P%d|{l}|{t}|{m}{n}" % i)
         apps.append(a)
     usable = [a["name"] for a in apps]
 
@@ -823,6 +828,18 @@ def degenerate(doc):
     return False
 
 
+def timing_sensitive(model):
+    """a size-triggered rolling appender whose records carry a time stamp (default pattern / `{d` / json): chrono
+    prints 3, 6 or 9 fractional digits, so record lengths and roll points differ from run to run"""
+    for a in model[2]:
+        c = a[2]
+        if c[0] == 2 and c[4][1][0] == 0 and c[4][1][1] < 100000:
+            e = c[3]
+            if e[0] == 1 or "{d" in _s(e[1]):
+                return True
+    return False
+
+
 def _acc_of_model(model):
     _, refresh, apps, derrs, cfg, berrs, strict = model
     nf = {_s(a[0]): len(a[1]) for a in apps}
@@ -859,6 +876,7 @@ def compare(c, impl, model):
         if pacc != acc:
             return "programmatic equivalent: accessors differ from the model's configuration"
         pbeh = norm_behaviour(prog[3])
+        skip_beh = timing_sensitive(model)
     for (ext, _), d in zip(docs, impl[:-1]):
         ext = ext if isinstance(ext, str) else ext.decode()
         if not isinstance(d, list) or len(d) != 7:
@@ -899,7 +917,7 @@ def compare(c, impl, model):
                 return "%s: %d deserialization errors, model %d" % (ext, lossy2[1], len(model[3]))
             if sorted(repr([e[0], e[1]]) for e in lossy2[2]) != berrs:
                 return "%s: build errors differ from the model (kind, name multiset)" % ext
-        if status == 1 and norm_behaviour(beh) != pbeh:
+        if status == 1 and not skip_beh and norm_behaviour(beh) != pbeh:
             return "%s: logged output / rolled files differ from the programmatic equivalent" % ext
     return None
 
